@@ -246,7 +246,7 @@ fn server_groups(rng: &mut Rng, dirs: &[String]) -> Vec<Group> {
     let n = rng.range(0, 7);
     for _ in 0..n {
         let g = match rng.below(13) {
-            0 => vec![pick(rng, &["-i", "--ip-address"]), pick(rng, &["0.0.0.0", "127.0.0.1", "::1", "1234.5.6.7", "10.0.0.256", "0:0:0:0:0:0:0:0", "::ffff:1.2.3.4", "localhost", "", "+1.2.3.4", "01.2.3.4"])],
+            0 => vec![pick(rng, &["-i", "--ip-address"]), pick(rng, &["0.0.0.0", "127.0.0.1", "::1", "1234.5.6.7", "10.0.0.256", "0:0:0:0:0:0:0:0", "::ffff:1.2.3.4", "localhost", "", "+1.2.3.4", "01.2.3.4", "10.0.0.1:6969", "[::1]:69", "127.0.0.1:69", "[::1]", "1.2.3.4/8"])],
             1 => vec![pick(rng, &["-p", "--port"]), pick(rng, &["0", "69", "1234", "65535", "65536", "+80", "0080", "-1", "", "8o", "99999999999999999999"])],
             2 => vec![pick(rng, &["-d", "--directory"]), dirv(rng)],
             3 => vec![pick(rng, &["-rd", "--receive-directory"]), dirv(rng)],
@@ -423,6 +423,32 @@ pub fn gen_cfg(rng: &mut Rng, count: u64, _tier: &str) -> Vec<String> {
                 out.push(line("ccfg", &v(&["f.bin", "-d", "-rd", &a, flag, bad])));
                 out.push(line("ccfg", &v(&[flag, bad, "f.bin", "-u"])));
             }
+        }
+    }
+    // the client's direction is that of the last -u / -d, in every spelling and position
+    {
+        let v = |xs: &[&str]| -> Vec<String> { xs.iter().map(|x| x.to_string()).collect() };
+        for up in ["-u", "--upload"] {
+            for down in ["-d", "--download"] {
+                out.push(line("ccfg", &v(&["f.bin", up, down])));
+                out.push(line("ccfg", &v(&["f.bin", down, up])));
+                out.push(line("ccfg", &v(&[up, "f.bin", "-p", "6969", down])));
+                out.push(line("ccfg", &v(&[up, down, up, "f.bin"])));
+                out.push(line("ccfg", &v(&[down, up, "-b", "1024", down, "f.bin"])));
+            }
+        }
+        // an address in socket-address syntax is no address
+        for ip in ["10.0.0.1:6969", "[::1]:6969", "127.0.0.1:69", "[::1]"] {
+            out.push(line("cfg", &v(&["tftpd", "-i", ip])));
+            out.push(line("cfg", &v(&["tftpd", "-p", "1234", "--ip-address", ip])));
+            out.push(line("cfg", &v(&["tftpd", "-i", ip, "-p", "1234"])));
+            out.push(line("ccfg", &v(&["f.bin", "-i", ip])));
+        }
+        // ... and both address families are
+        for ip in ["::1", "127.0.0.1", "::ffff:10.1.2.3", "fe80::1", "0.0.0.0"] {
+            out.push(line("cfg", &v(&["tftpd", "-i", ip])));
+            out.push(line("ccfg", &v(&["f.bin", "-i", ip])));
+            out.push(line("ccfg", &v(&["--ip-address", ip, "-u", "f.bin"])));
         }
     }
     for k in 0..count {
